@@ -1149,6 +1149,8 @@ func TestC19Untrusted(t *testing.T) { h.Run(t, c19Gen, c19Check) }
 
 // Every row is also driven exhaustively over all lengths 0..2n+2 with two
 // fill patterns (the "all other lengths" part of the quantifier).
+const c19FillValid = 0xaa // sweep mode: well-formed content resized to the swept length
+
 type c19LenCase struct {
 	Row  string `json:"row"`
 	Arg  int    `json:"arg"`
@@ -1163,6 +1165,13 @@ func c19LenCheck(lc c19LenCase) h.Result {
 	for i, nom := range row.Nominal {
 		switch {
 		case nom == -1:
+		case i == lc.Arg && lc.Fill == c19FillValid:
+			// well-formed content truncated or zero-extended to the swept length
+			b := append([]byte(nil), row.Valid(3)[i]...)
+			for len(b) < lc.Len {
+				b = append(b, 0)
+			}
+			c.Args[i] = b[:lc.Len]
 		case i == lc.Arg:
 			c.Args[i] = bytes.Repeat([]byte{lc.Fill}, lc.Len)
 		case row.Valid != nil && row.Valid(3)[i] != nil:
@@ -1185,7 +1194,10 @@ func TestC19LengthSweep(t *testing.T) {
 				continue
 			}
 			for l := 0; l <= 2*nom+2; l++ {
-				for _, f := range []byte{0x00, 0x01, 0xff} {
+				for _, f := range []byte{0x00, 0x01, 0xff, c19FillValid} {
+					if f == c19FillValid && (row.Valid == nil || row.Valid(3)[i] == nil) {
+						continue
+					}
 					cases = append(cases, c19LenCase{Row: name, Arg: i, Len: l, Fill: f, N: l % (row.NMax + 1)})
 				}
 			}
